@@ -489,6 +489,65 @@ def table_decode (ctx, cname, m, b, rng):
       ctx.fire(cname, "table-decoded object unusable (%s)" % type(e).__name__, repr(e))
 
 
+def after_a_failure (ctx, cname, m, b, rng):
+  """
+  An object on which an encode or decode attempt has failed is still the
+  object it was: a message whose action list was incomplete encodes once the
+  list is put right, an object that was offered a truncated buffer decodes
+  the whole one afterwards.
+  """
+  import pox.openflow.libopenflow_01 as of
+  if len(b) > 8:
+    try:
+      o = type(m)()
+    except Exception:
+      o = None
+    if o is not None:
+      failed = False
+      for cut in sorted(set([len(b) - 1, 8 + (len(b) - 8) // 2, 9])):
+        if not 8 < cut < len(b): continue
+        try:
+          o.unpack(b[:cut], 0)
+        except Exception:
+          failed = True
+      if failed:
+        ctx.rep.count("decoded_after_a_failed_decode")
+        try:
+          o.unpack(b, 0)
+          # (compared with what a fresh object makes of the same bytes)
+          ref = type(m)(); ref.unpack(b, 0)
+          if not (o == ref):
+            ctx.fire(cname, "object decoded after a failed attempt differs from a fresh decode", "")
+          elif o.pack() != b:
+            ctx.fire(cname, "object decoded after a failed attempt re-encodes differently", "")
+        except Exception as e:
+          tb = traceback.extract_tb(e.__traceback__)
+          ctx.fire(cname, "decode after a failed attempt raises %s" % type(e).__name__,
+                   "%r at %s:%s" % (e, tb[-1].name, tb[-1].lineno))
+  acts = getattr(m, "actions", None)
+  if isinstance(acts, list):
+    bad = of.ofp_action_output()          # no port yet: cannot be encoded
+    acts.insert(0, bad)
+    try:
+      m.pack()
+      raised = False
+    except Exception:
+      raised = True
+    finally:
+      acts.remove(bad)
+    if raised:
+      ctx.rep.count("encoded_after_a_failed_encode")
+      try:
+        b2 = m.pack()
+        if b2 != b:
+          ctx.fire(cname, "object encodes differently after a failed attempt",
+                   "%s vs %s" % (b2.hex()[:160], b.hex()[:160]))
+      except Exception as e:
+        tb = traceback.extract_tb(e.__traceback__)
+        ctx.fire(cname, "encode after a failed attempt raises %s" % type(e).__name__,
+                 "%r at %s:%s" % (e, tb[-1].name, tb[-1].lineno))
+
+
 def roundtrip_message (ctx, m, rng, cname=None):
   cname = cname or type(m).__name__
   try:
@@ -558,6 +617,7 @@ def roundtrip_message (ctx, m, rng, cname=None):
       ctx.fire(cname, "re-pack raises %s" % type(e).__name__, repr(e))
   ctx.rep.count("roundtrips")
   table_decode(ctx, cname, m, b, rng)
+  after_a_failure(ctx, cname, m, b, rng)
   return b
 
 
@@ -687,6 +747,7 @@ def check_fm_table_id (ctx, rng):
       ctx.fire(cname, "re-pack raises %s" % type(e).__name__, repr(e))
   ctx.rep.count("roundtrips")
   ctx.rep.count("flow_mods_with_table_id")
+  after_a_failure(ctx, cname, m, b, rng)
   return b
 
 
